@@ -103,7 +103,7 @@ theorem maskBits_eq_iff (w b x y : Nat) : maskBits w b x = maskBits w b y ↔ x 
 theorem specSame_eq (c : Opts) (x y : Addr) :
     specSame c x y = decide (mask c.setDefault x = mask c.setDefault y) := by
   rw [mask_eq_specKey, mask_eq_specKey]
-  unfold specSame specKey
+  unfold specSame subnetId specKey
   cases hx : specClient x with
   | none =>
     cases hy : specClient y with
@@ -116,6 +116,10 @@ theorem specSame_eq (c : Opts) (x y : Addr) :
     | some q =>
       obtain ⟨g, b⟩ := q
       cases f <;> cases g <;> simp [maskBits_eq_iff, Bool.beq_eq_decide_eq]
+
+theorem toS_id_beq (c : Opts) (e0 e : Ev) :
+    ((e0.toS c).id == (e.toS c).id) = decide (mask c.setDefault e0.addr = mask c.setDefault e.addr) :=
+  specSame_eq c e0.addr e.addr
 
 /-! ### clause 1: the window bound, as the specification walks it -/
 
@@ -148,7 +152,7 @@ theorem specWalk_ok (c : Opts) (slack : Int) (e0 : Ev) (hslack : (specLimit c : 
       (cl.bucketOf (mask cl.opts e0.addr)).Inv cl.limit τ → sortedEvs τ es → e0.t ≤ τ →
       ((acc * nano : Nat) : Int) + (cl.bucketOf (mask cl.opts e0.addr)).avail cl.limit cl.burst τ
         ≤ ((cl.burst * nano : Nat) : Int) + ((cl.limit * (τ - e0.t) : Nat) : Int) →
-      specWalk c slack e0 acc es (cl.run es) = true := by
+      specWalk c slack (e0.toS c) acc (es.map (Ev.toS c)) (cl.run es) = true := by
   intro es
   induction es with
   | nil => intro cl acc τ _ _ _ _ _; rfl
@@ -164,7 +168,11 @@ theorem specWalk_ok (c : Opts) (slack : Int) (e0 : Ev) (hslack : (specLimit c : 
       rw [← Nat.mul_add]; congr 1; omega
     have hge := Bucket.avail_ge cl.limit cl.burst hLpos _ e.t e.t hinv'
     have hcast := cast_mul_sub cl.limit e.t e0.t (Nat.le_trans h0 hte)
-    simp only [ClientLimiter.run, specWalk, specSame_eq, ← hopts]
+    simp only [ClientLimiter.run, List.map, specWalk, toS_id_beq, ← hopts]
+    have ht0 : (e0.toS c).t = e0.t := rfl
+    have hte' : (e.toS c).t = e.t := rfl
+    have hne : (e.toS c).n = e.n := rfl
+    rw [ht0, hte', hne]
     by_cases hk : mask cl.opts e0.addr = mask cl.opts e.addr
     · simp only [hk, decide_true, if_true, Bool.and_eq_true, decide_eq_true_eq]
       rw [hk] at hinv' hstep hpot hge hinv
@@ -219,6 +227,7 @@ theorem specWalk_ok (c : Opts) (slack : Int) (e0 : Ev) (hslack : (specLimit c : 
 theorem specBound_ok (c : Opts) (slack : Int) (hslack : (specLimit c : Int) - 1 ≤ slack) :
     ∀ (es : List Ev) (cl : ClientLimiter) (τ : Nat), cl.opts = c.setDefault → cl.Inv τ → sortedEvs τ es →
       specBound c slack es (cl.run es) = true := by
+  unfold specBound
   intro es
   induction es with
   | nil => intro cl τ _ _ _; rfl
@@ -232,8 +241,8 @@ theorem specBound_ok (c : Opts) (slack : Int) (hslack : (specLimit c : Int) - 1 
         simp only [Nat.zero_mul, Nat.sub_self, Nat.mul_zero]
         omega)
     have IH := ih (cl.allowN e.addr e.t e.n).2 e.t (by simpa using hopts) (cl.inv_step e hinv hs.1) hs.2
-    simp only [ClientLimiter.run] at hw
-    simp only [ClientLimiter.run, specBound, hw, IH, Bool.and_self]
+    simp only [ClientLimiter.run, List.map] at hw
+    simp only [ClientLimiter.run, List.map, specBoundS, hw, IH, Bool.and_self]
 
 /-! ### clause 2: no refusal while the own subnet is within budget -/
 
@@ -243,8 +252,8 @@ theorem specBudget_add (c : Opts) (d d' : Int) :
   rw [Int.mul_add]; omega
 
 /-- looking back from a later instant with correspondingly more cost is the same scan -/
-theorem specScan_shift (c : Opts) (slack : Int) (a : Addr) (t te : Nat) :
-    ∀ (ps : List (Ev × Bool)) (x : Int),
+theorem specScan_shift (c : Opts) (slack : Int) (a : Option (Bool × Nat)) (t te : Nat) :
+    ∀ (ps : List (SEv × Bool)) (x : Int),
       specScan c slack a te (x - (specLimit c : Int) * ((t : Int) - te)) ps = specScan c slack a t x ps := by
   intro ps
   induction ps with
@@ -269,10 +278,10 @@ theorem specScan_shift (c : Opts) (slack : Int) (a : Addr) (t te : Nat) :
 /-- every shortfall of `k`'s bucket is explained by a window of `k`'s own past arrivals:
     whoever asks at `t` for more (`x` nano-tokens) than the bucket holds would exceed
     `burst + rate·window` for the window starting now or at one of the past arrivals of `k`. -/
-def Tight (c : Opts) (slack : Int) (cl : ClientLimiter) (k : Addr) (past : List (Ev × Bool)) (τ : Nat) : Prop :=
+def Tight (c : Opts) (slack : Int) (cl : ClientLimiter) (k : Addr) (past : List (SEv × Bool)) (τ : Nat) : Prop :=
   ∀ (t : Nat) (x : Int) (a : Addr), τ ≤ t → t ≤ maxDuration → mask cl.opts a = k →
     (cl.bucketOf k).avail cl.limit cl.burst t < x →
-    x + slack > specBudget c 0 ∨ specScan c slack a t x past = true
+    x + slack > specBudget c 0 ∨ specScan c slack (subnetId c a) t x past = true
 
 theorem specBudget_zero (c : Opts) : specBudget c 0 = ((specBurst c * nano : Nat) : Int) := by
   simp [specBudget]
@@ -302,21 +311,26 @@ theorem avail_mk (L B : Nat) (x : Int) (te t : Nat) (h : te ≤ t) (hM : t ≤ m
   simp only [Bucket.avail, hel]
 
 theorem tight_step (c : Opts) (slack : Int) (hslack : 0 ≤ slack) (cl : ClientLimiter) (hopts : cl.opts = c.setDefault)
-    (past : List (Ev × Bool)) (τ : Nat) (e : Ev) (hte : τ ≤ e.t) (k : Addr)
+    (past : List (SEv × Bool)) (τ : Nat) (e : Ev) (hte : τ ≤ e.t) (k : Addr)
     (hinv : (cl.bucketOf k).Inv cl.limit τ)
     (h : Tight c slack cl k past τ) :
-    Tight c slack (cl.allowN e.addr e.t e.n).2 k ((e, (cl.allowN e.addr e.t e.n).1) :: past) e.t := by
+    Tight c slack (cl.allowN e.addr e.t e.n).2 k ((e.toS c, (cl.allowN e.addr e.t e.n).1) :: past) e.t := by
   have hL := limit_of_opts c cl hopts
   have hB := burst_of_opts c cl hopts
   intro t x a ht htM ha hx
   simp only [ClientLimiter.allowN_opts, ClientLimiter.allowN_limit, ClientLimiter.allowN_burst] at ha hx
   by_cases hk : mask cl.opts e.addr = k
   · -- an arrival of this key
-    have hsame : specSame c a e.addr = true := by
-      rw [specSame_eq, ← hopts, ha, hk]; simp
+    have hsame : (subnetId c a == (e.toS c).id) = true := by
+      have := specSame_eq c a e.addr
+      unfold specSame at this
+      simp only [Ev.toS]
+      rw [this, ← hopts, ha, hk]; simp
+    have hpt : (e.toS c).t = e.t := rfl
+    have hpn : (e.toS c).n = e.n := rfl
     subst hk
     rw [ClientLimiter.bucketOf_allowN_same] at hx
-    simp only [specScan, hsame, if_true, Bool.or_eq_true, decide_eq_true_eq]
+    simp only [specScan, hsame, if_true, Bool.or_eq_true, decide_eq_true_eq, hpt, hpn]
     cases hd : (cl.allowN e.addr e.t e.n).1 with
     | false =>
       rw [ClientLimiter.allowN_fst] at hd
@@ -351,8 +365,11 @@ theorem tight_step (c : Opts) (slack : Int) (hslack : 0 ≤ slack) (cl : ClientL
           rw [specScan_shift] at h1
           simpa using h1
   · -- an arrival of another key: the bucket is untouched, the scan skips it
-    have hdiff : specSame c a e.addr = false := by
-      rw [specSame_eq, ← hopts, ha]
+    have hdiff : (subnetId c a == (e.toS c).id) = false := by
+      have := specSame_eq c a e.addr
+      unfold specSame at this
+      simp only [Ev.toS]
+      rw [this, ← hopts, ha]
       simp only [decide_eq_false_iff_not]
       exact fun h => hk h.symm
     rw [ClientLimiter.bucketOf_allowN_other _ _ _ _ _ hk] at hx
@@ -361,9 +378,9 @@ theorem tight_step (c : Opts) (slack : Int) (hslack : 0 ≤ slack) (cl : ClientL
 
 /-- clause 2 holds for the model from every tight state -/
 theorem specNoSpur_ok (c : Opts) (slack : Int) (hslack : 0 ≤ slack) :
-    ∀ (es : List Ev) (cl : ClientLimiter) (past : List (Ev × Bool)) (τ : Nat), cl.opts = c.setDefault →
+    ∀ (es : List Ev) (cl : ClientLimiter) (past : List (SEv × Bool)) (τ : Nat), cl.opts = c.setDefault →
       cl.Inv τ → (∀ k, Tight c slack cl k past τ) → sortedEvs τ es → (∀ e ∈ es, e.t ≤ maxDuration) →
-      specNoSpuriousRefusal c slack past es (cl.run es) = true := by
+      specNoSpuriousRefusalS c slack past (es.map (Ev.toS c)) (cl.run es) = true := by
   intro es
   induction es with
   | nil => intro cl past τ _ _ _ _ _; rfl
@@ -372,17 +389,20 @@ theorem specNoSpur_ok (c : Opts) (slack : Int) (hslack : 0 ≤ slack) :
     have hL := limit_of_opts c cl hopts
     have hB := burst_of_opts c cl hopts
     have hLpos : 0 < cl.limit := hL ▸ specLimit_pos c
-    have IH := ih (cl.allowN e.addr e.t e.n).2 ((e, (cl.allowN e.addr e.t e.n).1) :: past) e.t
+    have IH := ih (cl.allowN e.addr e.t e.n).2 ((e.toS c, (cl.allowN e.addr e.t e.n).1) :: past) e.t
       (by simpa using hopts) (cl.inv_step e hinv hs.1)
       (fun k => tight_step c slack hslack cl hopts past τ e hs.1 k (hinv k) (ht k)) hs.2
       (fun e' he' => hM e' (List.mem_cons_of_mem _ he'))
-    simp only [ClientLimiter.run, specNoSpuriousRefusal, IH, Bool.and_true]
+    simp only [ClientLimiter.run, List.map, specNoSpuriousRefusalS, IH, Bool.and_true]
     cases hd : (cl.allowN e.addr e.t e.n).1 with
     | true => rfl
     | false =>
       rw [ClientLimiter.allowN_fst] at hd
       have hno := (Bucket.allowN_false hd).1
-      simp only [Bool.false_or, specExhausted, Bool.or_eq_true, decide_eq_true_eq]
+      have hpt : (e.toS c).t = e.t := rfl
+      have hpn : (e.toS c).n = e.n := rfl
+      have hpi : (e.toS c).id = subnetId c e.addr := rfl
+      simp only [Bool.false_or, specExhausted, Bool.or_eq_true, decide_eq_true_eq, hpt, hpn, hpi]
       by_cases hn : e.n ≤ cl.burst
       · have hlt : (cl.bucketOf (mask cl.opts e.addr)).avail cl.limit cl.burst e.t < ((e.n * nano : Nat) : Int) := by
           have : ¬ (-((cl.bucketOf (mask cl.opts e.addr)).avail cl.limit cl.burst e.t - ((e.n * nano : Nat) : Int))
